@@ -71,6 +71,8 @@ Ltac finish :=
   leaf_intros; unfold_props; split_hyps; use_last; split_hyps;
   cbn [bid bcap bused bdata blocks bucket_cap usage limit next_bid];
   rewrite ?repeat_length, ?N2Nat.id;
+  (* a copy inside the allocation does not change the size of the memory *)
+  try (unfold slen in *; rewrite !bwrite_length by lia);
   first [ eq_close | solve [prop_close] | idtac ].
 
 (* the string argument: empty, or non-empty with only its (positive) length known *)
